@@ -686,7 +686,8 @@ pub fn history<S: Shape>(m: &mut Monitor, rng: &mut Rng, ops: usize) {
     m.count(&format!("histories_{}", S::NAME));
     if was_full && rejected_at_capacity > 0 && !aborted {
         m.nontrivial_hash(trace_hash);
-        if m.wants_sample() {
+        if m.wants_sample() && m.counter("sampled_histories") < 2 {
+            m.count("sampled_histories");
             m.sample(json!({"shape": S::NAME, "capacity": S::CAP, "key_universe": universe, "ops": ops,
                             "rejected_inserts_at_capacity": rejected_at_capacity, "last_ops": trace}));
         }
